@@ -74,30 +74,32 @@ Record st := mk_st {
   supsub : bool;
   tie : bool;
   fuel_out : bool;
+  adv_out : bool;
   trace : list (N * ev)
 }.
-Definition set_hosts (v : list hostid) (s : st) : st := {| hosts := v; desc := desc s; excl := excl s; closing := closing s; shut := shut s; cur := cur s; secure := secure s; ph := ph s; nfail := nfail s; imm := imm s; ntasks := ntasks s; opn := opn s; waiters := waiters s; dials := dials s; verifs := verifs s; nextcid := nextcid s; now := now s; subs := subs s; supsub := supsub s; tie := tie s; fuel_out := fuel_out s; trace := trace s |}.
-Definition set_desc (v : list hostid) (s : st) : st := {| hosts := hosts s; desc := v; excl := excl s; closing := closing s; shut := shut s; cur := cur s; secure := secure s; ph := ph s; nfail := nfail s; imm := imm s; ntasks := ntasks s; opn := opn s; waiters := waiters s; dials := dials s; verifs := verifs s; nextcid := nextcid s; now := now s; subs := subs s; supsub := supsub s; tie := tie s; fuel_out := fuel_out s; trace := trace s |}.
-Definition set_excl (v : list hostid) (s : st) : st := {| hosts := hosts s; desc := desc s; excl := v; closing := closing s; shut := shut s; cur := cur s; secure := secure s; ph := ph s; nfail := nfail s; imm := imm s; ntasks := ntasks s; opn := opn s; waiters := waiters s; dials := dials s; verifs := verifs s; nextcid := nextcid s; now := now s; subs := subs s; supsub := supsub s; tie := tie s; fuel_out := fuel_out s; trace := trace s |}.
-Definition set_closing (v : bool) (s : st) : st := {| hosts := hosts s; desc := desc s; excl := excl s; closing := v; shut := shut s; cur := cur s; secure := secure s; ph := ph s; nfail := nfail s; imm := imm s; ntasks := ntasks s; opn := opn s; waiters := waiters s; dials := dials s; verifs := verifs s; nextcid := nextcid s; now := now s; subs := subs s; supsub := supsub s; tie := tie s; fuel_out := fuel_out s; trace := trace s |}.
-Definition set_shut (v : bool) (s : st) : st := {| hosts := hosts s; desc := desc s; excl := excl s; closing := closing s; shut := v; cur := cur s; secure := secure s; ph := ph s; nfail := nfail s; imm := imm s; ntasks := ntasks s; opn := opn s; waiters := waiters s; dials := dials s; verifs := verifs s; nextcid := nextcid s; now := now s; subs := subs s; supsub := supsub s; tie := tie s; fuel_out := fuel_out s; trace := trace s |}.
-Definition set_cur (v : option cid) (s : st) : st := {| hosts := hosts s; desc := desc s; excl := excl s; closing := closing s; shut := shut s; cur := v; secure := secure s; ph := ph s; nfail := nfail s; imm := imm s; ntasks := ntasks s; opn := opn s; waiters := waiters s; dials := dials s; verifs := verifs s; nextcid := nextcid s; now := now s; subs := subs s; supsub := supsub s; tie := tie s; fuel_out := fuel_out s; trace := trace s |}.
-Definition set_secure (v : bool) (s : st) : st := {| hosts := hosts s; desc := desc s; excl := excl s; closing := closing s; shut := shut s; cur := cur s; secure := v; ph := ph s; nfail := nfail s; imm := imm s; ntasks := ntasks s; opn := opn s; waiters := waiters s; dials := dials s; verifs := verifs s; nextcid := nextcid s; now := now s; subs := subs s; supsub := supsub s; tie := tie s; fuel_out := fuel_out s; trace := trace s |}.
-Definition set_ph (v : phase) (s : st) : st := {| hosts := hosts s; desc := desc s; excl := excl s; closing := closing s; shut := shut s; cur := cur s; secure := secure s; ph := v; nfail := nfail s; imm := imm s; ntasks := ntasks s; opn := opn s; waiters := waiters s; dials := dials s; verifs := verifs s; nextcid := nextcid s; now := now s; subs := subs s; supsub := supsub s; tie := tie s; fuel_out := fuel_out s; trace := trace s |}.
-Definition set_nfail (v : nat) (s : st) : st := {| hosts := hosts s; desc := desc s; excl := excl s; closing := closing s; shut := shut s; cur := cur s; secure := secure s; ph := ph s; nfail := v; imm := imm s; ntasks := ntasks s; opn := opn s; waiters := waiters s; dials := dials s; verifs := verifs s; nextcid := nextcid s; now := now s; subs := subs s; supsub := supsub s; tie := tie s; fuel_out := fuel_out s; trace := trace s |}.
-Definition set_imm (v : nat) (s : st) : st := {| hosts := hosts s; desc := desc s; excl := excl s; closing := closing s; shut := shut s; cur := cur s; secure := secure s; ph := ph s; nfail := nfail s; imm := v; ntasks := ntasks s; opn := opn s; waiters := waiters s; dials := dials s; verifs := verifs s; nextcid := nextcid s; now := now s; subs := subs s; supsub := supsub s; tie := tie s; fuel_out := fuel_out s; trace := trace s |}.
-Definition set_ntasks (v : nat) (s : st) : st := {| hosts := hosts s; desc := desc s; excl := excl s; closing := closing s; shut := shut s; cur := cur s; secure := secure s; ph := ph s; nfail := nfail s; imm := imm s; ntasks := v; opn := opn s; waiters := waiters s; dials := dials s; verifs := verifs s; nextcid := nextcid s; now := now s; subs := subs s; supsub := supsub s; tie := tie s; fuel_out := fuel_out s; trace := trace s |}.
-Definition set_opn (v : list cid) (s : st) : st := {| hosts := hosts s; desc := desc s; excl := excl s; closing := closing s; shut := shut s; cur := cur s; secure := secure s; ph := ph s; nfail := nfail s; imm := imm s; ntasks := ntasks s; opn := v; waiters := waiters s; dials := dials s; verifs := verifs s; nextcid := nextcid s; now := now s; subs := subs s; supsub := supsub s; tie := tie s; fuel_out := fuel_out s; trace := trace s |}.
-Definition set_waiters (v : list (nat * N)) (s : st) : st := {| hosts := hosts s; desc := desc s; excl := excl s; closing := closing s; shut := shut s; cur := cur s; secure := secure s; ph := ph s; nfail := nfail s; imm := imm s; ntasks := ntasks s; opn := opn s; waiters := v; dials := dials s; verifs := verifs s; nextcid := nextcid s; now := now s; subs := subs s; supsub := supsub s; tie := tie s; fuel_out := fuel_out s; trace := trace s |}.
-Definition set_dials (v : list dial) (s : st) : st := {| hosts := hosts s; desc := desc s; excl := excl s; closing := closing s; shut := shut s; cur := cur s; secure := secure s; ph := ph s; nfail := nfail s; imm := imm s; ntasks := ntasks s; opn := opn s; waiters := waiters s; dials := v; verifs := verifs s; nextcid := nextcid s; now := now s; subs := subs s; supsub := supsub s; tie := tie s; fuel_out := fuel_out s; trace := trace s |}.
-Definition set_verifs (v : list (vkind * N)) (s : st) : st := {| hosts := hosts s; desc := desc s; excl := excl s; closing := closing s; shut := shut s; cur := cur s; secure := secure s; ph := ph s; nfail := nfail s; imm := imm s; ntasks := ntasks s; opn := opn s; waiters := waiters s; dials := dials s; verifs := v; nextcid := nextcid s; now := now s; subs := subs s; supsub := supsub s; tie := tie s; fuel_out := fuel_out s; trace := trace s |}.
-Definition set_nextcid (v : cid) (s : st) : st := {| hosts := hosts s; desc := desc s; excl := excl s; closing := closing s; shut := shut s; cur := cur s; secure := secure s; ph := ph s; nfail := nfail s; imm := imm s; ntasks := ntasks s; opn := opn s; waiters := waiters s; dials := dials s; verifs := verifs s; nextcid := v; now := now s; subs := subs s; supsub := supsub s; tie := tie s; fuel_out := fuel_out s; trace := trace s |}.
-Definition set_now (v : N) (s : st) : st := {| hosts := hosts s; desc := desc s; excl := excl s; closing := closing s; shut := shut s; cur := cur s; secure := secure s; ph := ph s; nfail := nfail s; imm := imm s; ntasks := ntasks s; opn := opn s; waiters := waiters s; dials := dials s; verifs := verifs s; nextcid := nextcid s; now := v; subs := subs s; supsub := supsub s; tie := tie s; fuel_out := fuel_out s; trace := trace s |}.
-Definition set_subs (v : bool) (s : st) : st := {| hosts := hosts s; desc := desc s; excl := excl s; closing := closing s; shut := shut s; cur := cur s; secure := secure s; ph := ph s; nfail := nfail s; imm := imm s; ntasks := ntasks s; opn := opn s; waiters := waiters s; dials := dials s; verifs := verifs s; nextcid := nextcid s; now := now s; subs := v; supsub := supsub s; tie := tie s; fuel_out := fuel_out s; trace := trace s |}.
-Definition set_supsub (v : bool) (s : st) : st := {| hosts := hosts s; desc := desc s; excl := excl s; closing := closing s; shut := shut s; cur := cur s; secure := secure s; ph := ph s; nfail := nfail s; imm := imm s; ntasks := ntasks s; opn := opn s; waiters := waiters s; dials := dials s; verifs := verifs s; nextcid := nextcid s; now := now s; subs := subs s; supsub := v; tie := tie s; fuel_out := fuel_out s; trace := trace s |}.
-Definition set_tie (v : bool) (s : st) : st := {| hosts := hosts s; desc := desc s; excl := excl s; closing := closing s; shut := shut s; cur := cur s; secure := secure s; ph := ph s; nfail := nfail s; imm := imm s; ntasks := ntasks s; opn := opn s; waiters := waiters s; dials := dials s; verifs := verifs s; nextcid := nextcid s; now := now s; subs := subs s; supsub := supsub s; tie := v; fuel_out := fuel_out s; trace := trace s |}.
-Definition set_fuel_out (v : bool) (s : st) : st := {| hosts := hosts s; desc := desc s; excl := excl s; closing := closing s; shut := shut s; cur := cur s; secure := secure s; ph := ph s; nfail := nfail s; imm := imm s; ntasks := ntasks s; opn := opn s; waiters := waiters s; dials := dials s; verifs := verifs s; nextcid := nextcid s; now := now s; subs := subs s; supsub := supsub s; tie := tie s; fuel_out := v; trace := trace s |}.
-Definition set_trace (v : list (N * ev)) (s : st) : st := {| hosts := hosts s; desc := desc s; excl := excl s; closing := closing s; shut := shut s; cur := cur s; secure := secure s; ph := ph s; nfail := nfail s; imm := imm s; ntasks := ntasks s; opn := opn s; waiters := waiters s; dials := dials s; verifs := verifs s; nextcid := nextcid s; now := now s; subs := subs s; supsub := supsub s; tie := tie s; fuel_out := fuel_out s; trace := v |}.
+Definition set_hosts (v : list hostid) (s : st) : st := {| hosts := v; desc := desc s; excl := excl s; closing := closing s; shut := shut s; cur := cur s; secure := secure s; ph := ph s; nfail := nfail s; imm := imm s; ntasks := ntasks s; opn := opn s; waiters := waiters s; dials := dials s; verifs := verifs s; nextcid := nextcid s; now := now s; subs := subs s; supsub := supsub s; tie := tie s; fuel_out := fuel_out s; adv_out := adv_out s; trace := trace s |}.
+Definition set_desc (v : list hostid) (s : st) : st := {| hosts := hosts s; desc := v; excl := excl s; closing := closing s; shut := shut s; cur := cur s; secure := secure s; ph := ph s; nfail := nfail s; imm := imm s; ntasks := ntasks s; opn := opn s; waiters := waiters s; dials := dials s; verifs := verifs s; nextcid := nextcid s; now := now s; subs := subs s; supsub := supsub s; tie := tie s; fuel_out := fuel_out s; adv_out := adv_out s; trace := trace s |}.
+Definition set_excl (v : list hostid) (s : st) : st := {| hosts := hosts s; desc := desc s; excl := v; closing := closing s; shut := shut s; cur := cur s; secure := secure s; ph := ph s; nfail := nfail s; imm := imm s; ntasks := ntasks s; opn := opn s; waiters := waiters s; dials := dials s; verifs := verifs s; nextcid := nextcid s; now := now s; subs := subs s; supsub := supsub s; tie := tie s; fuel_out := fuel_out s; adv_out := adv_out s; trace := trace s |}.
+Definition set_closing (v : bool) (s : st) : st := {| hosts := hosts s; desc := desc s; excl := excl s; closing := v; shut := shut s; cur := cur s; secure := secure s; ph := ph s; nfail := nfail s; imm := imm s; ntasks := ntasks s; opn := opn s; waiters := waiters s; dials := dials s; verifs := verifs s; nextcid := nextcid s; now := now s; subs := subs s; supsub := supsub s; tie := tie s; fuel_out := fuel_out s; adv_out := adv_out s; trace := trace s |}.
+Definition set_shut (v : bool) (s : st) : st := {| hosts := hosts s; desc := desc s; excl := excl s; closing := closing s; shut := v; cur := cur s; secure := secure s; ph := ph s; nfail := nfail s; imm := imm s; ntasks := ntasks s; opn := opn s; waiters := waiters s; dials := dials s; verifs := verifs s; nextcid := nextcid s; now := now s; subs := subs s; supsub := supsub s; tie := tie s; fuel_out := fuel_out s; adv_out := adv_out s; trace := trace s |}.
+Definition set_cur (v : option cid) (s : st) : st := {| hosts := hosts s; desc := desc s; excl := excl s; closing := closing s; shut := shut s; cur := v; secure := secure s; ph := ph s; nfail := nfail s; imm := imm s; ntasks := ntasks s; opn := opn s; waiters := waiters s; dials := dials s; verifs := verifs s; nextcid := nextcid s; now := now s; subs := subs s; supsub := supsub s; tie := tie s; fuel_out := fuel_out s; adv_out := adv_out s; trace := trace s |}.
+Definition set_secure (v : bool) (s : st) : st := {| hosts := hosts s; desc := desc s; excl := excl s; closing := closing s; shut := shut s; cur := cur s; secure := v; ph := ph s; nfail := nfail s; imm := imm s; ntasks := ntasks s; opn := opn s; waiters := waiters s; dials := dials s; verifs := verifs s; nextcid := nextcid s; now := now s; subs := subs s; supsub := supsub s; tie := tie s; fuel_out := fuel_out s; adv_out := adv_out s; trace := trace s |}.
+Definition set_ph (v : phase) (s : st) : st := {| hosts := hosts s; desc := desc s; excl := excl s; closing := closing s; shut := shut s; cur := cur s; secure := secure s; ph := v; nfail := nfail s; imm := imm s; ntasks := ntasks s; opn := opn s; waiters := waiters s; dials := dials s; verifs := verifs s; nextcid := nextcid s; now := now s; subs := subs s; supsub := supsub s; tie := tie s; fuel_out := fuel_out s; adv_out := adv_out s; trace := trace s |}.
+Definition set_nfail (v : nat) (s : st) : st := {| hosts := hosts s; desc := desc s; excl := excl s; closing := closing s; shut := shut s; cur := cur s; secure := secure s; ph := ph s; nfail := v; imm := imm s; ntasks := ntasks s; opn := opn s; waiters := waiters s; dials := dials s; verifs := verifs s; nextcid := nextcid s; now := now s; subs := subs s; supsub := supsub s; tie := tie s; fuel_out := fuel_out s; adv_out := adv_out s; trace := trace s |}.
+Definition set_imm (v : nat) (s : st) : st := {| hosts := hosts s; desc := desc s; excl := excl s; closing := closing s; shut := shut s; cur := cur s; secure := secure s; ph := ph s; nfail := nfail s; imm := v; ntasks := ntasks s; opn := opn s; waiters := waiters s; dials := dials s; verifs := verifs s; nextcid := nextcid s; now := now s; subs := subs s; supsub := supsub s; tie := tie s; fuel_out := fuel_out s; adv_out := adv_out s; trace := trace s |}.
+Definition set_ntasks (v : nat) (s : st) : st := {| hosts := hosts s; desc := desc s; excl := excl s; closing := closing s; shut := shut s; cur := cur s; secure := secure s; ph := ph s; nfail := nfail s; imm := imm s; ntasks := v; opn := opn s; waiters := waiters s; dials := dials s; verifs := verifs s; nextcid := nextcid s; now := now s; subs := subs s; supsub := supsub s; tie := tie s; fuel_out := fuel_out s; adv_out := adv_out s; trace := trace s |}.
+Definition set_opn (v : list cid) (s : st) : st := {| hosts := hosts s; desc := desc s; excl := excl s; closing := closing s; shut := shut s; cur := cur s; secure := secure s; ph := ph s; nfail := nfail s; imm := imm s; ntasks := ntasks s; opn := v; waiters := waiters s; dials := dials s; verifs := verifs s; nextcid := nextcid s; now := now s; subs := subs s; supsub := supsub s; tie := tie s; fuel_out := fuel_out s; adv_out := adv_out s; trace := trace s |}.
+Definition set_waiters (v : list (nat * N)) (s : st) : st := {| hosts := hosts s; desc := desc s; excl := excl s; closing := closing s; shut := shut s; cur := cur s; secure := secure s; ph := ph s; nfail := nfail s; imm := imm s; ntasks := ntasks s; opn := opn s; waiters := v; dials := dials s; verifs := verifs s; nextcid := nextcid s; now := now s; subs := subs s; supsub := supsub s; tie := tie s; fuel_out := fuel_out s; adv_out := adv_out s; trace := trace s |}.
+Definition set_dials (v : list dial) (s : st) : st := {| hosts := hosts s; desc := desc s; excl := excl s; closing := closing s; shut := shut s; cur := cur s; secure := secure s; ph := ph s; nfail := nfail s; imm := imm s; ntasks := ntasks s; opn := opn s; waiters := waiters s; dials := v; verifs := verifs s; nextcid := nextcid s; now := now s; subs := subs s; supsub := supsub s; tie := tie s; fuel_out := fuel_out s; adv_out := adv_out s; trace := trace s |}.
+Definition set_verifs (v : list (vkind * N)) (s : st) : st := {| hosts := hosts s; desc := desc s; excl := excl s; closing := closing s; shut := shut s; cur := cur s; secure := secure s; ph := ph s; nfail := nfail s; imm := imm s; ntasks := ntasks s; opn := opn s; waiters := waiters s; dials := dials s; verifs := v; nextcid := nextcid s; now := now s; subs := subs s; supsub := supsub s; tie := tie s; fuel_out := fuel_out s; adv_out := adv_out s; trace := trace s |}.
+Definition set_nextcid (v : cid) (s : st) : st := {| hosts := hosts s; desc := desc s; excl := excl s; closing := closing s; shut := shut s; cur := cur s; secure := secure s; ph := ph s; nfail := nfail s; imm := imm s; ntasks := ntasks s; opn := opn s; waiters := waiters s; dials := dials s; verifs := verifs s; nextcid := v; now := now s; subs := subs s; supsub := supsub s; tie := tie s; fuel_out := fuel_out s; adv_out := adv_out s; trace := trace s |}.
+Definition set_now (v : N) (s : st) : st := {| hosts := hosts s; desc := desc s; excl := excl s; closing := closing s; shut := shut s; cur := cur s; secure := secure s; ph := ph s; nfail := nfail s; imm := imm s; ntasks := ntasks s; opn := opn s; waiters := waiters s; dials := dials s; verifs := verifs s; nextcid := nextcid s; now := v; subs := subs s; supsub := supsub s; tie := tie s; fuel_out := fuel_out s; adv_out := adv_out s; trace := trace s |}.
+Definition set_subs (v : bool) (s : st) : st := {| hosts := hosts s; desc := desc s; excl := excl s; closing := closing s; shut := shut s; cur := cur s; secure := secure s; ph := ph s; nfail := nfail s; imm := imm s; ntasks := ntasks s; opn := opn s; waiters := waiters s; dials := dials s; verifs := verifs s; nextcid := nextcid s; now := now s; subs := v; supsub := supsub s; tie := tie s; fuel_out := fuel_out s; adv_out := adv_out s; trace := trace s |}.
+Definition set_supsub (v : bool) (s : st) : st := {| hosts := hosts s; desc := desc s; excl := excl s; closing := closing s; shut := shut s; cur := cur s; secure := secure s; ph := ph s; nfail := nfail s; imm := imm s; ntasks := ntasks s; opn := opn s; waiters := waiters s; dials := dials s; verifs := verifs s; nextcid := nextcid s; now := now s; subs := subs s; supsub := v; tie := tie s; fuel_out := fuel_out s; adv_out := adv_out s; trace := trace s |}.
+Definition set_tie (v : bool) (s : st) : st := {| hosts := hosts s; desc := desc s; excl := excl s; closing := closing s; shut := shut s; cur := cur s; secure := secure s; ph := ph s; nfail := nfail s; imm := imm s; ntasks := ntasks s; opn := opn s; waiters := waiters s; dials := dials s; verifs := verifs s; nextcid := nextcid s; now := now s; subs := subs s; supsub := supsub s; tie := v; fuel_out := fuel_out s; adv_out := adv_out s; trace := trace s |}.
+Definition set_fuel_out (v : bool) (s : st) : st := {| hosts := hosts s; desc := desc s; excl := excl s; closing := closing s; shut := shut s; cur := cur s; secure := secure s; ph := ph s; nfail := nfail s; imm := imm s; ntasks := ntasks s; opn := opn s; waiters := waiters s; dials := dials s; verifs := verifs s; nextcid := nextcid s; now := now s; subs := subs s; supsub := supsub s; tie := tie s; fuel_out := v; adv_out := adv_out s; trace := trace s |}.
+Definition set_adv_out (v : bool) (s : st) : st := {| hosts := hosts s; desc := desc s; excl := excl s; closing := closing s; shut := shut s; cur := cur s; secure := secure s; ph := ph s; nfail := nfail s; imm := imm s; ntasks := ntasks s; opn := opn s; waiters := waiters s; dials := dials s; verifs := verifs s; nextcid := nextcid s; now := now s; subs := subs s; supsub := supsub s; tie := tie s; fuel_out := fuel_out s; adv_out := v; trace := trace s |}.
+Definition set_trace (v : list (N * ev)) (s : st) : st := {| hosts := hosts s; desc := desc s; excl := excl s; closing := closing s; shut := shut s; cur := cur s; secure := secure s; ph := ph s; nfail := nfail s; imm := imm s; ntasks := ntasks s; opn := opn s; waiters := waiters s; dials := dials s; verifs := verifs s; nextcid := nextcid s; now := now s; subs := subs s; supsub := supsub s; tie := tie s; fuel_out := fuel_out s; adv_out := adv_out s; trace := v |}.
 
 Definition TEN_S : N := 40960.
 Definition SIXTY_S : N := 245760.
@@ -337,14 +339,14 @@ Definition fire (x : timer) (s : st) : st :=
    external event at t (the real scheduler's order is then unspecified): flagged *)
 Fixpoint advance (fuel : nat) (t : N) (s : st) : st :=
   match fuel with
-  | O => set_fuel_out true s
+  | O => set_adv_out true s        (* not enough fuel to reach t: reported, never observed *)
   | S f =>
       match next_timer s with
       | Some x =>
           if N.ltb (timer_time x) t then advance f t (fire x s)
-          else if N.eqb (timer_time x) t then set_now t (set_tie true s)
-          else set_now t s
-      | None => set_now t s
+          else if N.eqb (timer_time x) t then set_now (N.max t (now s)) (set_tie true s)
+          else set_now (N.max t (now s)) s
+      | None => set_now (N.max t (now s)) s
       end
   end.
 
@@ -359,7 +361,7 @@ Definition step (tc : N * control) (s : st) : st :=
   apply_control (snd tc) (snap false s).
 
 Definition init (hs : list hostid) (sb : bool) (ds : list dial) (vs : list (vkind * N)) : st :=
-  mk_st hs hs [] false false None false PNone 0 0 0 [] [] ds vs 1 0%N sb true false false [].
+  mk_st hs hs [] false false None false PNone 0 0 0 [] [] ds vs 1 0%N sb true false false false [].
 
 Definition run (hs : list hostid) (sb : bool) (ds : list dial) (vs : list (vkind * N))
            (controls : list (N * control)) (end_ : N) : st :=
